@@ -3,6 +3,7 @@
 #include "harness.h"
 
 #include <atomic>
+#include <cerrno>
 #include <cstdio>
 #include <cstdlib>
 #include <cstring>
@@ -544,20 +545,41 @@ void setup_c11(const Plan &P)
     RotatingFileSink::Options opts = RotatingFileSink::Options(P.cfg["options"].toInt());
     if (mode == "fluent-multi") {
         QString apath = QString::fromStdString(C->rundir) + "/audit.log";
-        SimplePipeline &sub = C->logger->pipeline();
         int kind = P.cfg["audit_kind"].toInt(), arg = P.cfg["audit_arg"].toInt();
+        QString container = P.cfg["audit_container"].toString();
+        FilterPtr flt;
         if (kind == 0)
-            sub.filterLevel((QtMsgType)arg);
+            flt = LevelFilterPtr::create((QtMsgType)arg);
         else if (kind == 1)
-            sub.filterCategory(QString::fromUtf8(kCatRuleMenu[arg % kNumCatRules]));
+            flt = CategoryFilterPtr::create(QString::fromUtf8(kCatRuleMenu[arg % kNumCatRules]));
         else
-            sub.filter(QString::fromUtf8(kRegexMenu[arg % kNumRegex]));
-        sub.format(QStringLiteral("%{message}"));
+            flt = RegExpFilterPtr::create(QString::fromUtf8(kRegexMenu[arg % kNumRegex]));
+        FormatterPtr fmt = PatternFormatterPtr::create(QStringLiteral("%{message}"));
+        SinkPtr asink;
         if (P.cfg["audit_rot"].toBool())
-            sub.sendToFile(apath, P.cfg["audit_size"].toInt(), 0, RotatingFileSink::None);
+            asink = RotatingFileSinkPtr::create(apath, P.cfg["audit_size"].toInt(), 0, RotatingFileSink::None);
         else
-            sub.sendToFile(apath);
-        sub.end();
+            asink = FileSinkPtr::create(apath);
+        if (container == "pipeline") {
+            // a plain Pipeline object appended with operator<< (README style)
+            auto sub = PipelinePtr::create(/* scoped */ true);
+            sub->append(flt);
+            sub->append(fmt);
+            sub->append(asink);
+            *C->logger << sub;
+        } else if (container == "sorted") {
+            auto sub = SortedPipelinePtr::create(/* scoped */ true);
+            sub->appendSink(asink);
+            sub->setFormatter(fmt);
+            sub->appendFilter(flt);
+            *C->logger << sub;
+        } else {
+            SimplePipeline &sub = C->logger->pipeline();
+            sub.append(flt);
+            sub.append(fmt);
+            sub.append(asink);
+            sub.end();
+        }
         C->logger->format(QStringLiteral("%{message}"));
         if (P.cfg["main_rot"].toBool())
             C->logger->sendToFile(path, size, cnt, opts);
@@ -683,6 +705,10 @@ void run_child(const Plan &P, const std::string &rundir)
         fc.root = rundir;
         fc.granularity_ns = sim::MS;
         fc.record_writes = true;
+        if (P.cfg["audit_enospc"].toBool()) {
+            fc.fail_write_path = "audit.log";
+            fc.fail_write_errno = ENOSPC;
+        }
         sim::fs_arm(fc);
         setup_c11(P);
     } else {
